@@ -138,6 +138,19 @@ impl Cast {
         prover::create_or_update_revocation_state(&reg.def.value.tails_location, &reg.def, &rh.lists[li], idx, None, None).ok()
     }
 
+    /// the same state, derived the other way: from scratch for list 0, then updated list by list (other indices change on the way)
+    pub fn rev_state_incremental(&self, c: usize, li: usize) -> Option<CredentialRevocationState> {
+        let h = &self.creds[c];
+        let (ri, idx) = h.rev?;
+        let rh = &self.regs[ri];
+        let reg = &self.w.defs[rh.def].regs[rh.reg];
+        let mut st = self.rev_state(c, 0)?;
+        for k in 1..=li {
+            st = prover::create_or_update_revocation_state(&reg.def.value.tails_location, &reg.def, &rh.lists[k], idx, Some(&st), Some(&rh.lists[k - 1])).ok()?;
+        }
+        Some(st)
+    }
+
     /// ghost `SymCred` of a held credential
     pub fn ghost_cred(&self, c: usize) -> Value {
         let h = &self.creds[c];
